@@ -11,6 +11,7 @@ import (
 	"time"
 
 	stdx509 "crypto/x509"
+	"crypto/x509/pkix"
 
 	"github.com/zmap/zcrypto/x509"
 	zlint "github.com/zmap/zlint/v3"
@@ -26,6 +27,10 @@ type ViewSpec struct {
 	Emails   []string
 	SmtpUTF8 []int // text lengths of SmtpUTF8Mailbox otherNames (0 = empty UTF8String, -1 = empty [0] wrapper)
 	OtherON  bool  // an otherName of a different type
+	// EmptyEKUExt: with no EKUs, still write an extKeyUsage extension whose SEQUENCE is empty. The parsed view is the
+	// same as with no extension (no EKU of either kind), so the model's answer is the same: "no EKU" is a fact about the
+	// parsed lists, not about the presence of the extension.
+	EmptyEKUExt bool
 }
 
 // parsedView renders the view the scope predicates read, from the *parsed* certificate
@@ -135,6 +140,9 @@ func buildViewCert(v ViewSpec, nb time.Time, offsetForm bool) (*x509.Certificate
 		names = append(names, gnOtherName("1.3.6.1.4.1.311.20.2.3", "upn@x", false))
 	}
 	spec.RawSAN = names
+	if v.EmptyEKUExt && len(v.EKUs) == 0 {
+		spec.ExtraExt = append(spec.ExtraExt, pkix.Extension{Id: asn1.ObjectIdentifier{2, 5, 29, 37}, Value: []byte{0x30, 0x00}})
+	}
 	der, err := BuildCert(spec)
 	if err != nil {
 		return nil, nil, err
@@ -360,6 +368,9 @@ var fwViews = []ViewSpec{
 	{OtherON: true, EKUs: []string{"1.3.6.1.5.5.7.3.4"}},
 	{EKUs: []string{"1.3.6.1.5.5.7.3.2", "1.3.6.1.5.5.7.3.36"}, Policies: []string{"2.23.140.1.1"}},
 	{EKUs: []string{"1.3.6.1.5.5.7.3.9"}, Policies: []string{"1.2.3.4"}},
+	{EmptyEKUExt: true}, // extKeyUsage present but empty: still "no EKU at all"
+	{EmptyEKUExt: true, Emails: []string{"a@example.com"}},
+	{EmptyEKUExt: true, Policies: []string{"1.2.3.4"}},
 }
 
 const fwE = int64(1600000000) // effective instant used by scripted lints
